@@ -18,7 +18,7 @@ RULE = ("modules of 1-3 dataclasses written to real files (linear inheritance ch
         "every (class, field) gets a subset of the five documentation positions {help=, docstring below, comment block above, "
         "inline comment, class-docstring Args entry} filled with marker texts that are distinct per class x field x position x "
         "line; all 32 subsets x neighbour documentation x field order x quote style are enumerated for a two-field class, the rest "
-        "is sampled from VERIF_SEED over: comment texts that contain '#', ':' and '=' themselves, string defaults with '#' inside single / double / triple quotes, escaped quotes and backslashes "
+        "is sampled from VERIF_SEED over: comment texts that contain '#', ':', '=', quote characters and triple-quote tokens themselves, string defaults with '#' inside single / double / triple quotes, escaped quotes and backslashes "
         "(with and without a real comment after the string), field order, 0-2 blank lines, 1-3 line comment blocks, one-line / multi-line docstrings "
         "(text on the quote lines or not), both quote styles, decorators with arguments, field names that are prefixes of each "
         "other. Extra streams: a class docstring documenting an inherited field; multiple inheritance queried in both orders "
@@ -147,7 +147,8 @@ def marker(cls, fname, pos, i=0):
 
 
 # comment texts may themselves contain '#', ':' and '=' (issue numbers, "key: value", "a = b")
-COMMENT_EXTRAS = ["", "", "", " #12", ": see #3 # and #4", " = a: b", " (default = 0) # noqa"]
+COMMENT_EXTRAS = ["", "", "", " #12", ": see #3 # and #4", " = a: b", " (default = 0) # noqa",
+                  " it's", ' "quoted"', ' use """ here', " '''x''' and \"\"\"y\"\"\""]
 
 
 def comment_marker(rng, cls, fname, pos, i=0):
@@ -584,7 +585,11 @@ def _failures(case, obs):
             if got[i] != want[i]:
                 out.append((pn[i], f"get_attribute_docstring({cn}, {fname!r}).{pn[i]} = {got[i]!r}, the layout demands {want[i]!r}"))
     for h in obs["helps"]:
-        want = spec_help(h["explicit"], spec_parts(case, obs, case["target"], h["field"]))
+        wp = spec_parts(case, obs, case["target"], h["field"])
+        for i in range(4):      # what the FieldWrapper itself obtained (mirrors spec_ok over all_queries)
+            if h["parts"][i] != wp[i]:
+                out.append((pn[i], f"FieldWrapper of {case['target']}.{h['field']}: _docstring.{pn[i]} = {h['parts'][i]!r}, the layout demands {wp[i]!r}"))
+        want = spec_help(h["explicit"], wp)
         if h["help"] != want:
             out.append(("help", f"help of {case['target']}.{h['field']} = {h['help']!r}, demanded {want!r}"))
         ah = h["action_help"]
